@@ -227,7 +227,9 @@ fn plant(src: &mut Src) -> Planted {
         ("`[[1], [2]]`[::0][*]", "[::0]", "InvalidSlice"),
         ("`[{\"a\": [1]}]`[:1:0].a[0].b.c", "[:1:0]", "InvalidSlice"),
         ("`[1, 2]`[::0] | [0]", "[::0]", "InvalidSlice"),
-        ("`[1, 2]`[1:][::0].\"é\"", "[::0]", "InvalidSlice"),
+        // (the step-0 slice sits on arrays: on a subject that is not an array the statement of C07
+        // allows null as well as the error)
+        ("`[[1], [2]]`[1:][::0].\"é\"", "[::0]", "InvalidSlice"),
         // calls followed by more of the chain / more calls
         ("abs('é').a.b", "abs(", "InvalidType"),
         ("nope(@)[0].length(@)", "nope(", "UnknownFunction"),
